@@ -54,11 +54,13 @@ Proof.
   intro H. apply andb_true_iff in H as [H1 H2].
   destruct (bytes_eqb k' k); simpl; [exact H2|]. apply andb_true_iff; split; auto.
 Qed.
+Lemma nnl_forget k l : nnl l -> nnl (r_forget k l).
+Proof. intro H. unfold r_forget. destruct (r_get k l) as [[| | |]|]; auto. apply nnl_r_del. exact H. Qed.
 Lemma nnl_put k x l : nn x -> nnl l -> nnl (e_put k x l).
 Proof.
-  intros Hx Hl. rewrite e_put_rec. destruct (r_get k l).
+  intros Hx Hl. rewrite e_put_rec. pose proof (nnl_forget k l Hl) as Hf. destruct (r_get k (r_forget k l)).
   - apply nnl_r_upd; auto.
-  - apply nnl_app. split; [exact Hl|]. unfold nnl. simpl. rewrite Hx. reflexivity.
+  - apply nnl_app. split; [exact Hf|]. unfold nnl. simpl. rewrite Hx. reflexivity.
 Qed.
 Lemma nnl_get k l c : nnl l -> r_get k l = Some c -> nn c.
 Proof.
@@ -162,8 +164,9 @@ Proof.
   - destruct Ht as [H|H]; [exact H|discriminate].
   - destruct Ht as [H|H]; [exact H|discriminate].
   - destruct Ht as [H|H]; [|discriminate]. apply nn_tab. apply nnl_put; [|exact H].
-    apply IH. rewrite e_get_rec. destruct (r_get k l) as [c|] eqn:G; [left|right; reflexivity].
-    eapply nnl_get; eauto.
+    apply IH. rewrite e_get_rec, e_forget_rec.
+    destruct (r_get k (r_forget k l)) as [c|] eqn:G; [left|right; reflexivity].
+    eapply nnl_get; [apply nnl_forget; exact H|exact G].
 Qed.
 
 Theorem spec_apply_no_none o x : nn x -> nn (spec_apply o x).
